@@ -252,6 +252,32 @@ Definition scalar_accepts (name : str) (v : value) : bool :=
     errors pushed to [result], [res], additional_info, seen_fields *)
 Record iostate := mkIo { io_errs : list err; io_res : bool; io_info : list (pos * msg); io_seen : nat }.
 
+(** one round of the loop over the expected fields; [cv] is check_value *)
+Definition io_step (cv : value -> ty -> list err) (fs : list (ident * value)) (st : iostate) (ef : inputvaldef) : iostate :=
+  match find_val (fun fv => cv fv (iv_type ef)) (iname (iv_name ef)) fs with
+  | None =>
+      if ty_is_nonnull (iv_type ef) && match iv_default ef with None => true | Some _ => false end
+      then mkIo (io_errs st) false
+             (io_info st ++ [(ipos (iv_name ef), RequiredFieldNotSpecified (iname (iv_name ef)))])
+             (io_seen st)
+      else st
+  | Some es => mkIo (io_errs st ++ es) (io_res st) (io_info st) (Datatypes.S (io_seen st))
+  end.
+
+(** the InputObject arm of is_value_compatible_type_def for an object literal, followed by check_value's
+    TypeMismatch ([mism]) when the verdict is "incompatible" *)
+Definition input_object_check (cv : value -> ty -> list err) (mism : list (pos * msg) -> list err)
+           (fields : list inputvaldef) (fs : list (ident * value)) : list err :=
+  let st := fold_left (io_step cv fs) fields (mkIo [] true [] 0) in
+  let extra := Nat.ltb (io_seen st) (length fs) in
+  let info := io_info st ++
+    (if extra then
+       flat_map (fun kv =>
+         if existsb (fun f => str_eqb (iname (iv_name f)) (iname (fst kv))) fields then []
+         else [(ipos (fst kv), UnknownField (iname (fst kv)))]) fs
+     else []) in
+  io_errs st ++ (if io_res st && negb extra then [] else mism info).
+
 Section Values.
   Variable S : tsdoc.
   Variable vars : option vardefs.
@@ -273,6 +299,34 @@ Section Values.
         if mismatch then [err0 (TypeMismatch (ty_show t)) p] else []
     end.
 
+  (** the Named arm of check_value (is_value_compatible_type_def followed by check_value's own TypeMismatch);
+      [cv] is check_value, [t] = TNamed n is the expected type as written *)
+  Definition check_named (cv : value -> ty -> list err) (v : value) (t : ty) (n : ident) : list err :=
+    match get_type S (iname n) with
+    | None => [mkErr TypeSystemError (ipos n) [(ipos n, UnknownType (iname n))]]
+    | Some td =>
+        let mism (info : list (pos * msg)) := [mkErr (TypeMismatch (ty_show t)) (value_pos v) info] in
+        match td with
+        | TDScalar _ _ name _ _ => if scalar_accepts (iname name) v then [] else mism []
+        | TDObject _ _ _ _ _ _ _ | TDInterface _ _ _ _ _ _ _ | TDUnion _ _ _ _ _ _ => mism []
+        | TDEnum _ _ ename _ vals _ =>
+            match v with
+            | VNull _ => []
+            | VEnum p m =>
+                if forallb (fun ev => negb (str_eqb (iname (ev_name ev)) m)) vals
+                then [mkErr (UnknownEnumMember m (iname ename)) p [(ipos ename, DefinitionPos (iname ename))]]
+                else []
+            | _ => mism []
+            end
+        | TDInput _ _ _ _ fields _ =>
+            match v with
+            | VObject _ fs => input_object_check cv mism fields fs
+            | VNull _ => []
+            | _ => mism []
+            end
+        end
+    end.
+
   (** check_value + is_value_compatible_type_def. Outer recursion on the value, inner on the expected type. *)
   Fixpoint check_value (v : value) : ty -> list err :=
     fix on_ty (t : ty) : list err :=
@@ -291,52 +345,23 @@ Section Values.
             | VNull _ => []
             | _ => on_ty inner
             end
-        | TNamed n =>
-            match get_type S (iname n) with
-            | None => [mkErr TypeSystemError (ipos n) [(ipos n, UnknownType (iname n))]]
-            | Some td =>
-                let mism (info : list (pos * msg)) := [mkErr (TypeMismatch (ty_show t)) (value_pos v) info] in
-                match td with
-                | TDScalar _ _ name _ _ => if scalar_accepts (iname name) v then [] else mism []
-                | TDObject _ _ _ _ _ _ _ | TDInterface _ _ _ _ _ _ _ | TDUnion _ _ _ _ _ _ => mism []
-                | TDEnum _ _ ename _ vals _ =>
-                    match v with
-                    | VNull _ => []
-                    | VEnum p m =>
-                        if forallb (fun ev => negb (str_eqb (iname (ev_name ev)) m)) vals
-                        then [mkErr (UnknownEnumMember m (iname ename)) p [(ipos ename, DefinitionPos (iname ename))]]
-                        else []
-                    | _ => mism []
-                    end
-                | TDInput _ _ _ _ fields _ =>
-                    match v with
-                    | VObject _ fs =>
-                        let step (st : iostate) (ef : inputvaldef) : iostate :=
-                          match find_val (fun fv => check_value fv (iv_type ef)) (iname (iv_name ef)) fs with
-                          | None =>
-                              if ty_is_nonnull (iv_type ef) && match iv_default ef with None => true | Some _ => false end
-                              then mkIo (io_errs st) false
-                                     (io_info st ++ [(ipos (iv_name ef), RequiredFieldNotSpecified (iname (iv_name ef)))])
-                                     (io_seen st)
-                              else st
-                          | Some es => mkIo (io_errs st ++ es) (io_res st) (io_info st) (Datatypes.S (io_seen st))
-                          end in
-                        let st := fold_left step fields (mkIo [] true [] 0) in
-                        let extra := Nat.ltb (io_seen st) (length fs) in
-                        let info := io_info st ++
-                          (if extra then
-                             flat_map (fun kv =>
-                               if existsb (fun f => str_eqb (iname (iv_name f)) (iname (fst kv))) fields then []
-                               else [(ipos (fst kv), UnknownField (iname (fst kv)))]) fs
-                           else []) in
-                        io_errs st ++ (if io_res st && negb extra then [] else mism info)
-                    | VNull _ => []
-                    | _ => mism []
-                    end
-                end
-            end
+        | TNamed n => check_named check_value v t n
         end
       end.
+
+  (** one round of the loop of check_arguments over the argument definitions: (errors, seen_args) *)
+  Definition arg_step (argument_pos : pos) (args : list (ident * value)) (st : list err * nat) (ad : inputvaldef)
+    : list err * nat :=
+    match find (fun kv => str_eqb (iname (iv_name ad)) (iname (fst kv))) args with
+    | None =>
+        let null_is_allowed :=
+          if negb (ty_is_nonnull (iv_type ad)) then true
+          else match iv_default ad with Some _ => true | None => false end in
+        if null_is_allowed then st
+        else (fst st ++ [mkErr (RequiredArgumentNotSpecified (iname (iv_name ad))) argument_pos
+                           [(ipos (iv_name ad), DefinitionPos (iname (iv_name ad)))]], snd st)
+    | Some kv => (fst st ++ check_value (snd kv) (iv_type ad), Datatypes.S (snd st))
+    end.
 
   (** check_arguments *)
   Definition check_arguments (parent_pos : pos) (parent_name : str) (parent_kind : str)
@@ -347,18 +372,7 @@ Section Values.
     | _, _ =>
         let argument_pos := match arguments with None => parent_pos | Some a => args_pos a end in
         let args := match arguments with None => [] | Some a => args_list a end in
-        let step (st : list err * nat) (ad : inputvaldef) : list err * nat :=
-          match find (fun kv => str_eqb (iname (iv_name ad)) (iname (fst kv))) args with
-          | None =>
-              let null_is_allowed :=
-                if negb (ty_is_nonnull (iv_type ad)) then true
-                else match iv_default ad with Some _ => true | None => false end in
-              if null_is_allowed then st
-              else (fst st ++ [mkErr (RequiredArgumentNotSpecified (iname (iv_name ad))) argument_pos
-                                 [(ipos (iv_name ad), DefinitionPos (iname (iv_name ad)))]], snd st)
-          | Some kv => (fst st ++ check_value (snd kv) (iv_type ad), Datatypes.S (snd st))
-          end in
-        let st := fold_left step defs ([], 0) in
+        let st := fold_left (arg_step argument_pos args) defs ([], 0) in
         fst st ++
         (if Nat.ltb (snd st) (length args) then
            flat_map (fun kv =>
